@@ -49,6 +49,14 @@ CHECKS = {
         "serialise-again idempotence on the REAL functions with the REAL CRC are bounded stand-ins (module shape bound), never counted as proved.",
    ref="DESIGN 5/C10", note=TB + " Unbounded round trip, output equality (structural: same TRAP_PRINT branch) and wrapper blob embedding are not decided.",
    tech="CBMC DFCC contracts on the real exit paths; bounded CBMC run of the real serializer/deserializer pair"),
+ "C19": dict(
+   cat="proof",
+   text="FRAGMENT (instruction encoder only): 2-safety by self-composition of the real isa_encode for each of the 256 opcode bytes: two instructions that agree on the "
+        "opcode and on the operand fields the table row names, arbitrary in everything else (padding, unused slots, operand_types, byte_length), encode to identical bytes. "
+        "Serializer, bytecode generator, transpiler, drivers: NOT decided.",
+   ref="DESIGN 5/C19", note=TB + " Everything upstream of the encoder needs whole-program information flow and is outside contract reach.",
+   tech="CBMC self-composition harness on the real isa_encode, case split over 256 opcode bytes"),
+
  "C20": dict(
    cat="proof",
    text="FRAGMENT (runtime containers): every dyn_array operation (new, new_with_capacity, push, pop, get, set, remove_at, clear, reserve, clone, accessors; six scalar element "
@@ -108,6 +116,10 @@ CHECKS = {
 }
 
 NOT_YET = {
+ "C01": "operator-level agreement VM vs generated C was designed (DESIGN 5/C01) but the generated-C template pipeline is not built; the VM half is discharged under C02; no per-call contract decides the all-programs statement; not claimed",
+ "C03": "interpreter operator/assert obligations on eval.c were designed (DESIGN 5/C03) but are not built (eval.c is 4.9k lines; goto-instrument --dfcc exhausted 12 GB on it until every other function body was removed); not claimed",
+ "C14": "per-opcode reference-count census and the enforcement of the vm_release contract on the real recursive function were designed (DESIGN 5/C14, 10.4) but are not built; the step harnesses only use the vm_release contract as an assumption; not claimed",
+ "C18": "the sequential session obligations on client_thread were designed (DESIGN 5/C18) but are not built; concurrency is outside contract reach anyway (C17); not claimed",
 }
 
 NA = {
